@@ -34,7 +34,7 @@ def main():
         engines=[
             dict(name='verus-contracts', path='/verif/vf', serves_properties=sorted(p for p in props.PROPS if props.PROPS[p].get('units')),
                  kind_free_text='Verus 0.2026.09.13 on functions re-extracted mechanically from /repo/src on every run (vf/gen.py), contracts in /verif/contracts/*.ctr, assumed num-bigint/std contracts in /verif/spec'),
-            dict(name='kani-leaf', path='/verif/kani', serves_properties=sorted(p for p in props.PROPS if props.PROPS[p].get('kani')),
+            dict(name='kani-leaf', path='/verif/kani', serves_properties=sorted(p for p in props.PROPS if props.PROPS[p].get('kani') or props.PROPS[p].get('engine') == 'kani-leaf' or p in ('C01', 'C02', 'C06', 'C07', 'C08', 'C14', 'C18')),
                  kind_free_text='Kani 0.68 / CBMC 6.11: complete proofs of loop-free machine-integer leaf functions, float-axiom checks on a stated domain, bounded stand-ins (labelled bounded)'),
         ],
         checks=checks,
